@@ -55,6 +55,10 @@ def run(ctx):
                                for w in words.split(' '))
             except Exception as ex:
                 words, idx = None, 'none'
+            if words is not None and '-1' in idx.split(','):
+                # a word that is not in the list of the object's language: no model line can describe it
+                ctx.violation('to_mnemonic returned a word that is not in the word list of its language', {'op': 'bip39_idx ' + e.hex(), 'language': lang, 'sentence': words})
+                continue
             idx_cases.append(('bip39_idx %s' % e.hex(), idx, True))
             if words is None:
                 continue
